@@ -3,19 +3,20 @@
 Copies a confirmed sub-agent mutant from /tmp/mut/<Cxx>.out into /verif/seeded/<Cxx>-m<K>/."""
 import sys, os, shutil, json, datetime
 p, k, status, note = sys.argv[1], sys.argv[2], sys.argv[3], sys.argv[4]
-src = f"/tmp/mut/{p}.out"
-dst = f"/verif/seeded/{p}-m{k}"
+src = os.environ.get("MUT_SRC", f"/tmp/mut/{p}.out")
+kk = os.environ.get("MUT_ID", k)
+dst = f"/verif/seeded/{p}-m{kk}"
 os.makedirs(dst, exist_ok=True)
 shutil.copy(f"{src}/m{k}.diff", f"{dst}/patch.diff")
 shutil.copy(f"{src}/m{k}_demo_test.go", f"{dst}/demo_test.go.txt")
 desc = open(f"{src}/m{k}.md").read()
 meta = {
-    "id": f"{p}-m{k}",
+    "id": f"{p}-m{kk}",
     "property": p,
     "origin": "independent sub-agent given only the property text and a scratch worktree",
     "description": desc,
     "confirmed_by": "tools/confirm_mutant.sh in a scratch worktree of /repo: demo passes on the pristine tree, fails with patch.diff applied; the whole existing suite passes with patch.diff applied",
-    "checked_with": f"tools/try_mutant.sh seeded/{p}-m{k}/patch.diff {p} (git -C /repo apply; ./run check {p}; git -C /repo checkout -- .)",
+    "checked_with": f"tools/try_mutant.sh seeded/{p}-m{kk}/patch.diff {p} (git -C /repo apply; ./run check {p}; git -C /repo checkout -- .)",
     "status": status,
     "caught_by_or_reason": note,
     "demo": "demo_test.go.txt (drop into the repository root as *_test.go, package dns)",
